@@ -92,8 +92,9 @@ Definition classify (T : option Q) (sQ : Q) : wclass :=
 Definition all_unknown (s : list Z) (i w : nat) : bool :=
   forallb (fun x => x =? -1) (firstn w (skipn i s)).
 
-Definition wcls (T : option Q) (s : list Z) (i w : nat) (sQ : Q) : wclass :=
-  if all_unknown s i w then
+Definition wcls (tie : bool) (T : option Q) (s : list Z) (i w : nat) (sQ : Q) : wclass :=
+  if tie then WAmb        (* some bin's exact p-value equals the threshold: the threshold bin is not decidable in floats *)
+  else if all_unknown s i w then
     match T with
     | None => WMiss
     | Some t => if Qltb t sQ then WHit else WMiss
@@ -112,7 +113,7 @@ Definition Qmax1 (x : Q) : Q := if Qle_bool 1 (Qabs x) then Qabs x else 1.
 Definition strands (rc : bool) : list bool := if rc then [true; false] else [true].
 
 (* per-motif context: tail list, base, highest, width, threshold bin *)
-Record mctx := MC { m_tl : list Z; m_base : Z; m_w : nat; m_T : option Q }.
+Record mctx := MC { m_tl : list Z; m_base : Z; m_w : nat; m_T : option Q; m_tie : bool }.
 Definition mctx_of (c : call) (m : motif) : mctx :=
   let tl := fast_tail (im m) in
   let base := sum_min (im m) in
@@ -121,7 +122,10 @@ Definition mctx_of (c : call) (m : motif) : mctx :=
      (match spec_b0_fast tl base (sum_max (im m)) w (cthr c) with
       | None => None
       | Some b0 => Some (inject_Z b0 * cbin c)%Q
-      end).
+      end)
+     (* a table entry within 1e-9 (relative) of the p-value threshold: `table < log_threshold` is
+        decided by float rounding (only dyadic thresholds such as 0.5 or 1/16 can do this) *)
+     (existsb (fun cnt => Qclose (probQ cnt w) (cthr c) (cthr c)) tl).
 
 (* the p-value of a window score: the table entry of its bin int(score / bin); when the
    quotient is within 1e-9 of an integer either neighbouring bin is accepted *)
@@ -136,12 +140,12 @@ Definition hit_ok (c : call) (ctxs : list mctx) (h : hit) : bool :=
   (h_plus h || crc c) &&
   (0 <=? h_seq h) && (h_seq h <? Z.of_nat (length (cseqs c))) &&
   let m := nth (Z.to_nat (h_motif h)) (cmotifs c) (Mo [] []) in
-  let x := nth (Z.to_nat (h_motif h)) ctxs (MC [] 0 0 None) in
+  let x := nth (Z.to_nat (h_motif h)) ctxs (MC [] 0 0 None false) in
   let s := nth (Z.to_nat (h_seq h)) (cseqs c) [] in
   let w := Z.of_nat (length (lo m)) in
   (0 <=? h_start h) && (h_start h + w <=? Z.of_nat (length s)) && (h_end h =? h_start h + w) &&
   let sQ := scoreQ (cK c) (spec_score (lo m) (h_plus h) s (Z.to_nat (h_start h))) in
-  (match wcls (m_T x) s (Z.to_nat (h_start h)) (length (lo m)) sQ with WMiss => false | _ => true end) &&
+  (match wcls (m_tie x) (m_T x) s (Z.to_nat (h_start h)) (length (lo m)) sQ with WMiss => false | _ => true end) &&
   Qclose (h_score h) sQ (Qmax1 sQ) &&
   p_ok c x sQ (h_p h) &&
   (Qltb (h_p h) (cthr c) || Qclose (h_p h) (cthr c) (cthr c)).
@@ -150,7 +154,7 @@ Definition hit_ok (c : call) (ctxs : list mctx) (h : hit) : bool :=
 Definition windows_ok (c : call) (ctxs : list mctx) (hs : list hit) : bool :=
   forallb (fun k =>
     let m := nth k (cmotifs c) (Mo [] []) in
-    let x := nth k ctxs (MC [] 0 0 None) in
+    let x := nth k ctxs (MC [] 0 0 None false) in
     let w := length (lo m) in
     forallb (fun plus =>
       forallb (fun l =>
@@ -158,7 +162,7 @@ Definition windows_ok (c : call) (ctxs : list mctx) (hs : list hit) : bool :=
         forallb (fun i =>
           let sQ := scoreQ (cK c) (spec_score (lo m) plus s i) in
           let n := count_key hs (Z.of_nat k) plus (Z.of_nat l) (Z.of_nat i) in
-          match wcls (m_T x) s i w sQ with
+          match wcls (m_tie x) (m_T x) s i w sQ with
           | WHit => n =? 1
           | WMiss => n =? 0
           | WAmb => n <=? 1
@@ -173,13 +177,13 @@ Definition hits_ok (c : call) (ctxs : list mctx) (hs : list hit) : bool :=
 (* number of windows of motif k in a class *)
 Definition count_class (c : call) (ctxs : list mctx) (k : nat) (cls : wclass) : Z :=
   let m := nth k (cmotifs c) (Mo [] []) in
-  let x := nth k ctxs (MC [] 0 0 None) in
+  let x := nth k ctxs (MC [] 0 0 None false) in
   let w := length (lo m) in
   sumz (map (fun plus =>
     sumz (map (fun l =>
       let s := nth l (cseqs c) [] in
       Z.of_nat (length (filter (fun i =>
-        match wcls (m_T x) s i w (scoreQ (cK c) (spec_score (lo m) plus s i)), cls with
+        match wcls (m_tie x) (m_T x) s i w (scoreQ (cK c) (spec_score (lo m) plus s i)), cls with
         | WHit, WHit | WAmb, WAmb => true
         | _, _ => false
         end) (seq 0 (length s + 1 - w)))))
@@ -227,13 +231,13 @@ Definition has_amb (c : call) : bool :=
   let ctxs := map (mctx_of c) (cmotifs c) in
   existsb (fun k =>
     let m := nth k (cmotifs c) (Mo [] []) in
-    let x := nth k ctxs (MC [] 0 0 None) in
+    let x := nth k ctxs (MC [] 0 0 None false) in
     existsb (fun plus =>
       existsb (fun l =>
         let s := nth l (cseqs c) [] in
         existsb (fun i =>
           let sQ := scoreQ (cK c) (spec_score (lo m) plus s i) in
-          match wcls (m_T x) s i (length (lo m)) sQ with
+          match wcls (m_tie x) (m_T x) s i (length (lo m)) sQ with
           | WAmb => true
           | WMiss => false
           | WHit => let q := (sQ / cbin c)%Q in
